@@ -5,6 +5,7 @@
   Statements and non-vacuity examples only; lemmas are in `SpecLex.lean`.
 -/
 import YashModel.Arith.SpecLex
+import YashModel.Arith.SpecParse
 namespace YashModel.Arith
 open YashModel.Generated.ArithTables
 
@@ -101,5 +102,169 @@ example : (parseU ['é'] "é += 2".toList).toOption = some (rpn (.bin .AddAssign
     evalStrU ['é'] "é += 2".toList [(['é'], ['5'])] = .value 7 [(['é'], ['7'])] ∧
     Spec.evalExact (.bin .AddAssign (.var ['é']) (.num 2)) [(['é'], ['5'])] = some (7, [(['é'], ['7'])]) := by
   decide +kernel
+
+/-! ## evaluation order of failures, skipped operands -/
+
+/-- ☆ which of two failing operands is reported, and what is not evaluated at all — for ALL trees (in scope or
+    not), operators and environments, on `eval` run on the parser's vector:
+    (a) an error of the LEFT operand (or of the condition of `?:`) is the error of the whole expression: the
+        right operand / the branches are never evaluated after it;
+    (b) if the left operand returns, an error of the right operand of a non-lazy operator is reported (it is
+        evaluated in the environment the left operand left behind) — before the left VALUE is read, so
+        `j + 1/0` with an unreadable `j` is `DivisionByZero`;
+    (c) `||` with a true, `&&` with a false left operand and `?:` return without evaluating the skipped operand:
+        whatever it is (`1/0`, `x++`, `x = 5`), the result and the variables are those after the left operand /
+        the selected branch. -/
+theorem first_failure_is_reported (op : BinaryOperator) (l r c t e : Spec.Expr) (env env1 : Env) (err : EvalErr)
+    (lt : Term) (a : Int) :
+    (evalOf l env = .error err → evalOf (.bin op l r) env = .error err) ∧
+    (evalOf c env = .error err → evalOf (.cond c t e) env = .error err) ∧
+    (evalOf l env = .ok (lt, env1) → op ≠ .LogicalOr → op ≠ .LogicalAnd → evalOf r env1 = .error err →
+      evalOf (.bin op l r) env = .error err) ∧
+    (evalOf l env = .ok (lt, env1) → intoValue lt env1 = .ok a → a ≠ 0 →
+      evalOf (.bin .LogicalOr l r) env = .ok (.value 1, env1)) ∧
+    (evalOf l env = .ok (lt, env1) → intoValue lt env1 = .ok 0 →
+      evalOf (.bin .LogicalAnd l r) env = .ok (.value 0, env1)) ∧
+    (evalOf c env = .ok (lt, env1) → intoValue lt env1 = .ok a →
+      evalOf (.cond c t e) env = if a ≠ 0 then evalOf t env1 else evalOf e env1) := by
+  simp only [evalOf, (eval_rpn _ _).2]
+  refine ⟨?_, ?_, ?_, ?_, ?_, ?_⟩
+  · intro h
+    by_cases h1 : op = .LogicalOr
+    · simp [evalTree, h1, h, Res.bind]
+    · by_cases h2 : op = .LogicalAnd
+      · simp [evalTree, h2, h, Res.bind]
+      · simp [evalTree, h1, h2, h, Res.bind]
+  · intro h; simp [evalTree, h, Res.bind]
+  · intro h h1 h2 hr; simp [evalTree, h1, h2, h, hr, Res.bind]
+  · intro h hv ha; simp [evalTree, h, hv, ha, Res.bind]
+  · intro h hv; simp [evalTree, h, hv, Res.bind]
+  · intro h hv; simp [evalTree, h, hv, Res.bind]
+
+example :
+    evalStr "0 && (1/0)".toList [] = .value 0 [] ∧
+    evalStr "1 || x++".toList [(['x'], ['4'])] = .value 1 [(['x'], ['4'])] ∧
+    evalStr "1 ? 2 : (x = 1/0)".toList [] = .value 2 [] ∧
+    evalStr "(1/0) + j".toList [(['j'], "junk".toList)] = .evalError .divisionByZero ∧
+    evalStr "j + (1/0)".toList [(['j'], "junk".toList)] = .evalError .divisionByZero ∧
+    evalStr "(j+0) + (1/0)".toList [(['j'], "junk".toList)] = .evalError .invalidVariableValue := by
+  decide +kernel
+
+/-! ## the Spec's parser reads every spelling back -/
+
+/-- ☆ the read-back theorem for the Spec column's own lexer and parser (`Spec.parseText`: maximal-munch lexer,
+    recursive descent by the C grammar levels assignment / conditional / 10 binary levels / unary / postfix /
+    primary).  For EVERY tree `e` — constants, variables, the 6 prefix and 2 postfix operators, all 29 binary
+    operators incl. the right-associative assignments, `?:`, any nesting — and every text `s` that the tokenizer
+    reads as the tokens of `e` with the needed and ANY number of redundant parentheses (`renderTop d e`;
+    `tokenize_every_spelling` shows that every spelling — any Unicode white space, hex/octal constants — is such
+    a text), the Spec reads `s` as exactly the tree `e`.  Together with `parse_render_redundant` (the code's
+    parser model builds `rpn e` from the same tokens) and `model_computes_C_value`, the agreement of the Spec
+    column with the Model column on every spelling of every in-scope tree is unconditional: the driver's
+    per-case check `parse text = rpn (tree the Spec reads)` is a theorem on these texts. -/
+theorem spec_reads_every_spelling (d : Deco) (e : Spec.Expr) (s : List Char)
+    (htok : tokenize (s.length + 1) s = renderTop d e) :
+    Spec.parseText s = some e ∧ parse s = .ok (rpn e) := by
+  have hlex : Spec.lex (s.length + 1) s = S (renderTop d e) :=
+    S_of_map _ _ (by rw [lex_eq_tokenize, htok]) (renderTop_noerr d e)
+  constructor
+  · unfold Spec.parseText
+    simp only [hlex]
+    rw [pAssign_renderTop d e _ (by simp [S]; omega)]
+  · unfold parse
+    simp only [htok]
+    exact parse_render_redundant d e _ (Nat.le_refl _)
+
+example :
+    tokenize 40 "x = a- -b ? y |= 3 : c++*((1+2))".toList =
+      renderTop (fun x => if x = .bin .Add (.num 1) (.num 2) then 1 else 0)
+        (.bin .Assign (.var ['x'])
+          (.cond (.bin .Subtract (.var ['a']) (.pre .NumericNegation (.var ['b'])))
+            (.bin .BitwiseOrAssign (.var ['y']) (.num 3))
+            (.bin .Multiply (.post .Increment (.var ['c'])) (.bin .Add (.num 1) (.num 2))))) := by
+  decide +kernel
+
+/-! ## which adjacent tokens need a separator -/
+
+/-- ☆ exactly which operator may be followed directly by which character: the tokenizer reads the lexeme of `o`
+    followed by the character `c` (and anything after it) as the operator `o` and continues at `c` IF AND ONLY IF
+    no lexeme of `OPERATORS` continues `o`'s lexeme with `c` (`opGlue`, computed from the generated table).  So
+    `a<-b`, `x=-1`, `a*-b`, `1?-2:+3`, `a++ +b` written `a+++b` need no separator, and `a- -b`, `a+ ++b`,
+    `a< <b`, `x= =1`, `a& &b` need one; `glueSafe` (the licence of `tokenize_every_spelling` and of
+    `text_gets_its_C_value_all_spellings` to omit white space) is now this condition, so it is necessary and
+    sufficient between two operators. -/
+theorem operators_touch_exactly_when_opGlue (o : Operator) (c : Char) (rest : List Char) :
+    nextToken (lexemeOf o ++ c :: rest) = some (.op o, c :: rest) ↔ opGlue (lexemeOf o) c = false := by
+  constructor
+  · intro h
+    cases hg : opGlue (lexemeOf o) c with
+    | false => rfl
+    | true =>
+      exfalso
+      unfold opGlue at hg
+      rw [List.any_eq_true] at hg
+      obtain ⟨q, hq, hpre⟩ := hg
+      have hpre' : lexemeOf o ++ [c] <+: q.1 := List.isPrefixOf_iff_prefix.mp hpre
+      obtain ⟨hq3, hqt⟩ := table_prefix_closed q hq
+      have hplen : (lexemeOf o ++ [c]).length ≤ q.1.length := hpre'.length_le
+      have hin : lexemeOf o ++ [c] ∈ operators.map (·.1) := by
+        rw [List.prefix_iff_eq_take.mp hpre']
+        apply hqt
+        simp only [List.length_append, List.length_cons, List.length_nil] at hplen ⊢
+        simp only [List.mem_cons, List.not_mem_nil, or_false]
+        omega
+      rw [List.mem_map] at hin
+      obtain ⟨q', hq', hq'l⟩ := hin
+      obtain ⟨c0, u0, hl0⟩ := lexemeOf_cons o
+      have hws : isWhitespace c0 = false :=
+        table_facts.2.2.1 _ (table_facts.2.2.2 o) c0 (by simp [hl0])
+      have hdw : (lexemeOf o ++ c :: rest).dropWhile isWhitespace = lexemeOf o ++ c :: rest := by
+        rw [hl0]; simp [hws]
+      have hq's : q'.1 <+: lexemeOf o ++ c :: rest := by
+        rw [hq'l]
+        have : lexemeOf o ++ c :: rest = (lexemeOf o ++ [c]) ++ rest := by simp
+        rw [this]; exact List.prefix_append _ _
+      unfold nextToken at h
+      simp only [hdw] at h
+      cases hf : findOp (lexemeOf o ++ c :: rest) with
+      | none =>
+        unfold findOp at hf
+        rw [List.find?_eq_none] at hf
+        exact hf q' hq' (List.isPrefixOf_iff_prefix.mpr hq's)
+      | some r =>
+        obtain ⟨lex', o'⟩ := r
+        obtain ⟨_, _, hmax⟩ := findOp_longest _ _ _ hf
+        have hlen := hmax q' hq' hq's
+        rw [hq'l] at hlen
+        rw [hl0] at h hf
+        simp only [List.cons_append, List.head?_cons] at h
+        rw [← hl0] at hf
+        rw [hl0, List.cons_append] at hf
+        rw [hf] at h
+        simp only [Option.some.injEq, Prod.mk.injEq] at h
+        have := congrArg List.length h.2
+        simp only [List.length_drop, List.length_cons, List.length_append] at this hlen
+        rw [hl0] at hlen
+        simp only [List.length_cons, List.length_append, List.length_nil] at hlen
+        omega
+  · intro hg
+    exact nextToken_op_general o (c :: rest) (Or.inr (Or.inr hg))
+
+example : opGlue (lexemeOf .Less) '-' = false ∧ opGlue (lexemeOf .Equal) '-' = false ∧
+    opGlue (lexemeOf .Minus) '-' = true ∧ opGlue (lexemeOf .Plus) '+' = true ∧ opGlue (lexemeOf .Less) '<' = true ∧
+    opGlue (lexemeOf .Equal) '=' = true ∧ opGlue (lexemeOf .PlusPlus) '+' = false ∧
+    glueSafe (.op .Less) (.op .Minus) ∧ ¬ glueSafe (.op .Minus) (.op .Minus) ∧ ¬ glueSafe (.op .Plus) (.op .PlusPlus) ∧
+    tokenize 9 "a<-b".toList = [.term (.variable ['a']), .op .Less, .op .Minus, .term (.variable ['b'])] ∧
+    tokenize 9 "a+++b".toList = [.term (.variable ['a']), .op .PlusPlus, .op .Plus, .term (.variable ['b'])] := by
+  refine ⟨by decide, by decide, by decide, by decide, by decide, by decide, by decide, ?_, ?_, ?_, by decide, by decide⟩
+  · exact Or.inr (Or.inr (fun c hc => by simp [lexemeOf, operators] at hc; subst hc; decide))
+  · intro h; rcases h with h | h | h
+    · exact absurd h (by decide)
+    · exact absurd h (by decide)
+    · exact absurd (h '-' (by decide)) (by decide)
+  · intro h; rcases h with h | h | h
+    · exact absurd h (by decide)
+    · exact absurd h (by decide)
+    · exact absurd (h '+' (by decide)) (by decide)
 
 end YashModel.Arith
